@@ -171,6 +171,7 @@ extern "C" int LLVMFuzzerInitialize(int* argc, char*** argv) {
         if (f) { gNNDataSize = (unsigned)fread(gNNDataData, 1, 24u << 20, f); fclose(f); }
         if (gNNDataSize == 0) { fprintf(stderr, "c17_uci: no network (set TEXEL_VERIF_NET)\n"); _exit(3); }
     }
+    fz::runPendingReplay();
     return 0;
 }
 
